@@ -72,7 +72,7 @@ func errKind(e string) string {
 	}
 }
 
-// ---- classifier of the known finding (a predicate over the input) -----------
+// ---- helpers of the generator ----------------------------------------------
 
 func cleanASCII(s string) string {
 	s = strings.ToUpper(s)
@@ -94,29 +94,6 @@ func prefixSet(rg *regime, country string) []string {
 	}
 	set = append(set, rg.Alts...)
 	return set
-}
-
-// rewrittenPrefix: (GR) the identity's country is not the code the regime's
-// normaliser rewrites it to (EL) and the cleaned code, once the identity's own
-// leading prefixes (its country and the regime's alternative codes) are removed,
-// begins with that code: tax.NormalizeIdentity does not know the prefix on the
-// first pass, the country is then rewritten, and the second pass removes it.
-func rewrittenPrefix(rg *regime, t tcase) bool {
-	if !rg.Rewrites || t.Country == rg.CC {
-		return false
-	}
-	c := cleanASCII(t.Code)
-	own := append([]string{t.Country}, rg.Alts...)
-	for again := true; again; {
-		again = false
-		for _, p := range own {
-			if p != "" && strings.HasPrefix(c, p) {
-				c = c[len(p):]
-				again = true
-			}
-		}
-	}
-	return strings.HasPrefix(c, rg.CC)
 }
 
 // ---- run ------------------------------------------------------------------------
@@ -220,6 +197,25 @@ func genRegime(r *rand.Rand, rg *regime, n int) []tcase {
 			// the clean code itself and a raw random text
 			cases = append(cases, tcase{Kind: "n", CC: rg.CC, Country: country, Code: base, Base: base, Stream: "variant-identity"})
 			cases = append(cases, tcase{Kind: "n", CC: rg.CC, Country: country, Code: variant(r, randomCode(r, rg), "", ""), Stream: "variant-raw"})
+		}
+	}
+	// (6) prefix grid, complete on every run: each country routed to the regime × every
+	// sequence of at most two prefixes of the identity (its country, the country the
+	// normaliser rewrites it to, the alternative codes), written plainly in front of one
+	// valid code.  A normaliser that learns one of these prefixes only on its second pass
+	// (GR before the library fix: `EL…` under country `GR`) fails here whatever the seed.
+	if !rg.NoPrefix {
+		base := cleanASCII(valids[0])
+		for _, country := range rg.Countries {
+			set := append([]string{""}, prefixSet(rg, country)...)
+			for _, p1 := range set {
+				for _, p2 := range set {
+					if p1 == "" && p2 != "" {
+						continue
+					}
+					cases = append(cases, tcase{Kind: "n", CC: rg.CC, Country: country, Code: p1 + p2 + base, Base: base, Stream: "variant-prefix-grid"})
+				}
+			}
 		}
 	}
 	return cases
@@ -335,23 +331,21 @@ func runCases(c *core.Ctx, byCC map[string]*regime, cases []tcase) int {
 			if i%9973 == 0 {
 				c.Sample(map[string]any{"regime": t.CC, "country": t.Country, "code": t.Code, "stream": t.Stream, "normalized": x.code1, "country_out": x.c1})
 			}
-			// the only known finding left on the normalisation side; doubled country
-			// prefixes and doubled CH suffixes are fixed in the library and are violations
-			known := ""
-			if rewrittenPrefix(rg, t) {
-				known = "normalize-rewritten-country-prefix"
-			}
+			// no known finding is left on the normalisation side: doubled country prefixes,
+			// doubled CH suffixes and `EL…` under country `GR` (the prefix of the country the
+			// GR normaliser rewrites the identity to) are fixed in the library; each of them
+			// is a violation if it returns
 			detail := map[string]any{"case": t, "first": x.code1, "second": x.code2, "base_normalized": x.bcode}
 			// idempotent
 			if x.code1 != x.code2 || x.c1 != x.c2 {
 				c.Count("law-failed:idempotent", 1)
-				c.Fail(known, fmt.Sprintf("normalisation of %s %q is not idempotent: %q then %q", t.Country, t.Code, x.code1, x.code2), detail)
+				c.Fail("", fmt.Sprintf("normalisation of %s %q is not idempotent: %q then %q", t.Country, t.Code, x.code1, x.code2), detail)
 				continue
 			}
 			// insensitive to separators, case and leading country prefixes
 			if t.Base != "" && (x.code1 != x.bcode || x.c1 != x.bc) {
 				c.Count("law-failed:insensitive", 1)
-				c.Fail(known, fmt.Sprintf("normalisation of %s %q gives %q but its clean form %q gives %q", t.Country, t.Code, x.code1, t.Base, x.bcode), detail)
+				c.Fail("", fmt.Sprintf("normalisation of %s %q gives %q but its clean form %q gives %q", t.Country, t.Code, x.code1, t.Base, x.bcode), detail)
 				continue
 			}
 			if undef {
